@@ -132,10 +132,17 @@ func Run(t *testing.T, p *Prop) {
 				}
 			}
 		}()
+		cur := os.Getenv("VERIF_CURCASE")
 		rapid.Check(ct, func(rt *rapid.T) {
 			c := p.Draw(rt)
 			last = c
 			lastFail = nil
+			if cur != "" {
+				// For checks whose failure kills the process (race
+				// detector with halt_on_error): keep the case being
+				// executed on disk, in replay-file format.
+				_ = os.WriteFile(cur, []byte(`{"property":"`+p.ID+`","part":"`+p.Part+`","case":`+string(c.JSON())+`}`), 0o644)
+			}
 			if f := p.RunCheck(c, st); f != nil {
 				lastFail = f
 				rt.Fatalf("%s", f.Sig)
